@@ -10,6 +10,10 @@ def rapid(pkg, test, q, th, shards=14, **kw):
     d.update(kw)
     return d
 
+def fuzz(pkg, test, seconds=120, workers=5):
+    return {"pkg": pkg, "test": test, "kind": "fuzz", "tier": "thorough", "fuzztime": {"thorough": "%ds" % seconds}, "fuzzworkers": workers,
+            "timeout_s": {"thorough": seconds + 600}}
+
 def plain(pkg, test, **kw):
     d = {"pkg": pkg, "test": test, "kind": "plain"}
     d.update(kw)
@@ -148,7 +152,8 @@ CHECKS = {
         "technique": "property-based testing (rapid) with structure-aware mutation + native coverage-guided fuzzing (thorough); oracles inside the target: no panic/hang, input unmodified, determinism, extent by construction / differential with an independent parser / canary backing array",
         "level_text": "Generated-input exploration of malformed input: valid encodings of generic trees, requests, responses and all 54 payload types are mutated so that exactly the fields the statement names (length, type, nesting) disagree with what follows; XML/JSON documents are mutated at document level (wrong kinds at every position, unknown types, hostile scalars). Every decode runs under panic capture and a watchdog; the input is compared with a pristine copy; a second decode must agree; for binary, over-reads are detected three ways (mutants built to overrun their parent must be rejected; acceptance implies acceptance by the independent extent-mode parser and equal trees; results must not depend on bytes beyond len(input) within cap). Thorough adds native fuzzing of the same oracle for all three decoders.",
         "level_note": "Bounded input sizes (<= ~320 KiB, mostly < 2 KiB); hang verdict = no return within 60 s; trusts harness/ttlvref in extent mode (deliberately lenient about everything C02 does not state).",
-        "jobs": [rapid("codec", "TestC02Binary", 20000, 50000), rapid("codec", "TestC02Text", 10000, 40000)],
+        "jobs": [rapid("codec", "TestC02Binary", 20000, 50000), rapid("codec", "TestC02Text", 10000, 40000),
+                 fuzz("codec", "FuzzC02Binary"), fuzz("codec", "FuzzC02XML"), fuzz("codec", "FuzzC02JSON")],
         "assumptions": ["tag 000000 is the library's documented end-of-data marker: a generic structure stops there, which is not an over-read",
                         "UnmarshalTTLV decodes the first item and ignores trailing bytes (documented behaviour of the item reader)"],
     },
@@ -165,7 +170,8 @@ CHECKS = {
         "technique": "property-based testing (rapid): non-canonical-but-accepted inputs from independent writers and from the C02 mutators, fixed-point oracle in the same and through the other encodings; native fuzzing with the same oracle (thorough)",
         "level_text": "Generated-input exploration over accepted inputs no encoder of the library emits (non-zero padding, over-long big integers, odd booleans, unknown/reordered/dropped/duplicated fields, alternative XML/JSON lexical forms, accepted mutants): Dec_A(x) ok implies Enc_A does not panic, Dec_A(Enc_A(v)) ok and a second re-encoding is byte-identical; the same through each other encoding whenever the decoded strings are representable there and dates are in years 1..9999 (predicate evaluated on the decoded value; unrepresentable cases counted as skipped).",
         "level_note": "Targets ttlv.Value, RequestMessage, ResponseMessage; sizes as C01.",
-        "jobs": [rapid("codec", "TestC18FixedPoint", 6000, 40000), rapid("codec", "TestC18Mutants", 6000, 40000)],
+        "jobs": [rapid("codec", "TestC18FixedPoint", 6000, 40000), rapid("codec", "TestC18Mutants", 6000, 40000),
+                 fuzz("codec", "FuzzC18Binary"), fuzz("codec", "FuzzC18XML"), fuzz("codec", "FuzzC18JSON")],
         "assumptions": ["rejected inputs create no obligation"],
     },
     "C20": {
